@@ -65,13 +65,22 @@ PresTypes == SortedSeq(DOMAIN PresKind)
 \* gateway names (IPSECKEY / AMTRELAY type 3)
 GwNasty(t, j) ==
   IF t = 45 THEN One1(45, [Precedence |-> 1, GatewayType |-> 3, Algorithm |-> 2, GatewayHost |-> << NastyLabels[j], <<120>> >>, PublicKey |-> <<1, 3>>])
-  ELSE One1(260, [Precedence |-> 1, GatewayType |-> 131, GatewayHost |-> << NastyLabels[j], <<120>> >>])
+  ELSE One1(260, [Precedence |-> 1, GatewayType |-> 3, GatewayHost |-> << NastyLabels[j], <<120>> >>])
 
 NastyMsg(t, i, j) ==
   LET es == FieldsOf(t) IN
   IF i = 0 THEN GwNasty(t, j)
   ELSE IF t \in {64, 65} THEN Msg(H0, <<>>, << SvcbRR(t, 1, IF es[i].k = "svcb" THEN NameA ELSE NastyFor(t, es[i])[j], IF es[i].k = "svcb" THEN NastyFor(t, es[i])[j] ELSE <<>>) >>, <<>>, <<>>)
   ELSE One1(t, With(es, i, NastyFor(t, es[i])[j]))
+
+\* NSEC3 as it occurs in practice: SHA-1, 20-octet next hashed owner; salts empty / 1 / 8 / 255 octets; bitmaps
+Hash20(j) == [i \in 1..20 |-> (j * 37 + i * 11) % 256]
+N3Salts == << <<>>, <<171>>, Ramp(8), Ramp(255) >>
+N3Maps  == << <<>>, <<1>>, <<1, 2, 6, 15, 46, 48, 51>>, <<1, 46, 1234, 65280>>, <<0>>, <<65535>> >>
+Nsec3Msg(j) ==
+  LET salt == N3Salts[1 + (j % Len(N3Salts))]  map == N3Maps[1 + ((j \div Len(N3Salts)) % Len(N3Maps))] IN
+  One1(50, [Hash |-> 1, Flags |-> j % 2, Iterations |-> (j * 13) % 65536, SaltLength |-> Len(salt), Salt |-> salt,
+            HashLength |-> 20, NextDomain |-> Hash20(j), TypeBitMap |-> map])
 
 \* nasty owners, each with a TXT record
 OwnerMsg(j) == Msg(H0, <<>>, << RR(<< NastyLabels[j], <<120>> >>, 16, 1, Ttl1h, [Txt |-> << <<104, 105>> >>]) >>, <<>>, <<>>)
@@ -107,11 +116,14 @@ PInit ==
         /\ \/ \E i \in 1..Len(es) : \E j \in 1..Len(NastyFor(t, es[i])) : v = <<t, i, j>>
            \/ t \in {45, 260} /\ \E j \in 1..Len(NastyLabels) : v = <<t, 0, j>>
            \/ t = 16 /\ \E j \in 1..Len(NastyLabels) : v = <<0, 0, j>>
+           \/ t = 50 /\ \E j \in 1..(Len(N3Salts) * Len(N3Maps)) : v = <<-1, 0, j>>
   \/ PMode = "codes" /\ \E k \in 1..2 : \E c \in CodeSet : InShard(c) /\ v = <<k, c>>
 PNext == UNCHANGED v
 
 PCase == IF PMode = "c01" THEN Case
-         ELSE IF v[1] = 0 THEN OwnerMsg(v[3]) ELSE NastyMsg(v[1], v[2], v[3])
+         ELSE IF v[1] = 0 THEN OwnerMsg(v[3])
+         ELSE IF v[1] = -1 THEN Nsec3Msg(v[3])
+         ELSE NastyMsg(v[1], v[2], v[3])
 
 PVector(m) ==
   LET rrs == m.an \o m.ns \o m.ar IN
